@@ -472,26 +472,27 @@ type Explorer struct {
 	transitions int64
 	obligations int64
 
-	Results          []PathResult
-	Violations       []Violation
-	Inconclusive     []string
-	Reach            map[string]int
-	Bounds           map[string]int
-	Funcs            map[string]string
-	Models           map[string]int
-	Notes            []string
-	Paths            int
-	EndedPaths       int
-	PanicPaths       int
-	Stats            solver.Stats
-	Exhaustive       bool
-	Fallbacks        int
-	modelCount       map[string]int
-	Solver2          string
-	Timeout2         int
-	Wall             time.Duration
-	MaxSamples       int
-	PanicIsViolation bool
+	Results           []PathResult
+	Violations        []Violation
+	Inconclusive      []string
+	Reach             map[string]int
+	Bounds            map[string]int
+	Funcs             map[string]string
+	Models            map[string]int
+	Notes             []string
+	Paths             int
+	EndedPaths        int
+	PanicPaths        int
+	Stats             solver.Stats
+	Exhaustive        bool
+	Fallbacks         int
+	InconclusivePaths int
+	modelCount        map[string]int
+	Solver2           string
+	Timeout2          int
+	Wall              time.Duration
+	MaxSamples        int
+	PanicIsViolation  bool
 }
 
 func (ex *Explorer) push(prefix []int64) {
@@ -638,7 +639,20 @@ func (ex *Explorer) record(res PathResult, p *Path) {
 	case "panic":
 		ex.PanicPaths++
 	case "inconclusive":
-		ex.Inconclusive = append(ex.Inconclusive, res.Reason)
+		base := res.Reason
+		if i := strings.Index(base, " [choices:"); i >= 0 {
+			base = base[:i]
+		}
+		dup := false
+		for _, o := range ex.Inconclusive {
+			if strings.HasPrefix(o, base) {
+				dup = true
+			}
+		}
+		ex.InconclusivePaths++
+		if !dup {
+			ex.Inconclusive = append(ex.Inconclusive, res.Reason)
+		}
 	}
 	for _, v := range res.Violations {
 		ex.Violations = append(ex.Violations, v)
